@@ -554,6 +554,26 @@ pub fn draw(w: &mut Rng, size: u64) -> Drawn {
             libs[li].classes.push(ClassSpec { sup: Some("java/lang/Object".into()), ifs: vec![], methods: vec![], fields: vec![], ..c });
         }
     }
+    // ... and the other way round: the main jar's class has no super type but java/lang/Object, the copy a library
+    // bundles extends something - by preference a class that declares a method with the name and descriptor of one of
+    // the synthetic methods of the class (missed seeded change C15-17: a provider derived from an index that keeps no
+    // entry for classes directly below Object lets the library's entry win)
+    if !libs.is_empty() && w.chance(12) {
+        let plain: Vec<ClassSpec> = main.classes.iter().filter(|c| c.ifs.is_empty() && c.sup.as_deref().map_or(true, |s| s == "java/lang/Object")).cloned().collect();
+        if !plain.is_empty() {
+            let c = w.pick(&plain).clone();
+            let all: Vec<&ClassSpec> = main.classes.iter().chain(libs.iter().flat_map(|l| l.classes.iter())).filter(|b| b.name != c.name).collect();
+            let synth: Vec<(&String, &String)> = c.methods.iter().filter(|m| m.access & 0x1000 != 0).map(|m| (&m.name, &m.desc)).collect();
+            let related: Vec<&&ClassSpec> = all.iter().filter(|b| b.methods.iter().any(|m| synth.contains(&(&m.name, &m.desc)))).collect();
+            let base = if !related.is_empty() { Some(w.pick(&related).name.clone()) } else if !all.is_empty() { Some(w.pick(&all).name.clone()) } else { None };
+            if let Some(base) = base {
+                let li = w.usize(libs.len());
+                if !libs[li].classes.iter().any(|x| x.name == c.name) {
+                    libs[li].classes.push(ClassSpec { sup: Some(base), ifs: vec![], methods: vec![], fields: vec![], ..c });
+                }
+            }
+        }
+    }
     Drawn { main, libs, calamus, mappings }
 }
 
